@@ -28,6 +28,12 @@ def pointee_origin(body, op):
 
 def run(ck):
     f = ck.facts
+    # the function(s) that run the idle callbacks: `EventLoop::dispatch_idles`, or - when it was inlined away into its
+    # callers / a shared helper - every function of loop_logic.rs that calls `IdleDispatcher::dispatch` itself
+    _di0 = ck.opt_body("EventLoop::dispatch_idles")
+    idle_runners = [_di0] if _di0 is not None else [b_ for b_ in f.bodies.values() if b_.file.endswith("loop_logic.rs") and "{closure" not in b_.qual and [c_ for c_ in T.calls(b_, name="dispatch", trait="IdleDispatcher", self_kind=("dyn",)) if not b_.is_cleanup(c_.bb)]]
+    idle_quals = {b_.qual for b_ in idle_runners}
+
     ii = ck.body("1", "LoopHandle::insert_idle")
     adds = [cs for cs in T.calls(ii, name=APPEND + PREPEND) if T.path_has(ii, cs.args[0], ".idles")]
     ck.floor("1", "insert_idle: additions to the idle list", len(adds), 1)
@@ -61,88 +67,103 @@ def run(ck):
     for body in f.bodies.values():
         for cs in body.calls():
             if cs.args and not body.is_cleanup(cs.bb) and cs.name in ("clear", "truncate", "drain", "retain", "retain_mut", "remove", "pop", "split_off", "dedup_by", "pop_front", "pop_back") and T.path_has(body, cs.args[0], ".idles") and cs.f and ("Vec" in cs.f["path"] or "VecDeque" in cs.f["path"]):
-                if cs.name in ("pop_front",) and body.qual.startswith("EventLoop::dispatch_idles"):
+                if cs.name in ("pop_front",) and (body.qual.startswith("EventLoop::dispatch_idles") or body.qual in idle_quals):
                     continue
-                if cs.name in TAKE and body.qual == "EventLoop::dispatch_idles":
+                if cs.name in TAKE and body.qual in idle_quals:
                     # the take idiom of clause 2 (`drain(..)` / `split_off(0)` of the whole list, iterated there)
                     tk = [c for c in T.calls(body, name=TAKE) if T.path_has(body, c.args[0], ".idles")]
                     if tk and tk[0].bb == cs.bb:
                         continue
                 ck.violation("1", "T7-who-may-call", body, "idle-list-discarded:%s" % cs.name, "queued idle callbacks are removed from the pending list with `%s` without being run: an idle that was inserted and not cancelled is lost" % cs.name, site=body.where(cs.bb))
-    extra = writers - {"LoopHandle::insert_idle", "EventLoop::dispatch_idles", "EventLoop::try_new"}
+    extra = writers - {"LoopHandle::insert_idle", "EventLoop::dispatch_idles", "EventLoop::try_new"} - idle_quals
     ck.verdict(not extra, "1", "T7-who-may-write", "loop_logic::LoopInner", "writers-of:idles", "the idle list is written only by insert_idle (append) and dispatch_idles (take): %s" % sorted(writers), "the idle list is also written by %s" % sorted(extra), site="src/loop_logic.rs")
 
     # ---- clause 2: dispatch_idles ---------------------------------------------------------------------
-    di = ck.body("2", "EventLoop::dispatch_idles")
-    takes = [cs for cs in T.calls(di, name=TAKE) if T.path_has(di, cs.args[0], ".idles")]
-    disp = T.calls(di, name="dispatch", trait="IdleDispatcher", self_kind=("dyn",))
-    if not takes or not disp:
-        ck.violation("2", "T3-must-precede", di, "take-list-before-loop", "dispatch_idles does not take the idle list out of its cell before running the callbacks (idles inserted by an idle would run in the same dispatch, and the list stays borrowed across user code)", site=di.where())
-    else:
-        d = disp[0]
-        loops = di.loops()
-        lp = [(h, blk) for h, blk in loops.items() if d.bb in blk]
-        ck.verdict(bool(lp) and all(di.dominates(takes[0].bb, h) and takes[0].bb not in blk for h, blk in lp), "2", "T3-must-precede", di, "take-list-before-loop", "the whole list is taken before the loop starts", "the idle list is not taken before the loop", site=di.where(takes[0].bb))
-        # `mem::swap(&mut *list, &mut buffer)`: the batch is then the buffer (required below to be drained completely)
-        swap_buf = None
-        if takes[0].name == "swap" and len(takes[0].args) == 2:
-            others = [a for a in takes[0].args if not T.path_has(di, a, ".idles")]
-            swap_buf = pointee_origin(di, others[0]) if len(others) == 1 else None
-        ck.verdict(takes[0].name in ("take", "replace", "split_off", "drain") or swap_buf is not None, "2", "T6-provenance", di, "take-idiom:%s" % takes[0].name, "recognised take idiom", "unrecognised", site=di.where(takes[0].bb), nontrivial=False)
-        if lp:
-            h, blk = lp[0]
-            hc = di.call_at(h)
-            it_ok = hc is not None and hc.name == "next" and T.same_sequence_as_call(di, hc.args[0], [takes[0].bb])
-            if not it_ok and hc is not None and hc.name == "next":
-                # `for idle in taken.drain(..)`: a full drain of the taken vector is the same iteration
-                for r, p_ in di.resolve(hc.args[0]):
-                    if r[0] == "call":
-                        c2 = di.call_at(r[1])
-                        if c2.name == "drain" and T.resolves_to_call(di, c2.args[0], [takes[0].bb]) and "RangeFull" in di.facts.types[op_place(c2.args[1])["t"]]["s"]:
-                            it_ok = True
-            if not it_ok and hc is not None and hc.name == "next" and swap_buf is not None:
-                for r, p_ in di.resolve(hc.args[0]):
-                    if r[0] == "call":
-                        c2 = di.call_at(r[1])
-                        if c2.name == "drain" and "RangeFull" in di.facts.types[op_place(c2.args[1])["t"]]["s"] and pointee_origin(di, c2.args[0]) == swap_buf and di.dominates(takes[0].bb, c2.bb):
-                            it_ok = True
-            ck.verdict(it_ok, "2", "T6-provenance", di, "iterates-taken-list-in-order", "the loop iterates the taken vector itself, front to back, by value", "the loop does not iterate the taken list in order (reversed / filtered / another collection): %s" % (di.roots_str(hc.args[0]) if hc else "?"), site=di.where(h))
-            ck.verdict(hc is not None and any(x in f.types[f.peel_refs(op_place(hc.args[0])["t"])]["s"] for x in ("IntoIter", "Drain")), "2", "T6-provenance", di, "by-value-iteration", "entries are consumed by the iteration (each runs at most once)", "the idle list is not iterated by value: entries are not consumed", site=di.where(h))
-            some, none = T.option_split(di, h)
-            ex = [(a, t) for a, t, lab in T.loop_exit_edges(di, blk) if lab != "unwind" and di.blocks[t]["term"]["t"] != "unreachable"]
-            ck.verdict(bool(none) and set(ex) <= set(none), "2", "T5-loop-exit", di, "exits-only-on-exhaustion", "the loop is left only when the list is exhausted", "the idle loop can be left early (the remaining idles are dropped without running)", site=di.where(h))
-            bad = T.t2_all_exits(di, [x for _, x in some], [d.bb], exits={h})
-            ck.verdict(bad is None, "2", "T2-all-exits", di, "each-entry=>dispatch", "every entry is dispatched", "an entry can be skipped", site=di.where(d.bb))
-        # every dispatch looks at the list: the only way around the take is "the list is empty" (tested on the list itself).
-        # A separate "idles pending" flag is accepted only if it cannot be wiped after an idle inserted by an idle set
-        # it: every clearing store lies before the callbacks run, and insert_idle sets it on every path.
-        excused = []
-        for c in T.calls(di, name="is_empty"):
-            if not di.is_cleanup(c.bb) and c.args and T.path_has(di, c.args[0], ".idles"):
-                tr_, fa_ = T.bool_split(di, c.bb)
-                excused += tr_
-        flag_reads = [c for c in di.calls() if c.name in ("get", "load") and c.args and not di.is_cleanup(c.bb) and any(x in f.types[f.peel_refs(op_place(c.args[0])["t"])]["s"] for x in ("Cell<bool>", "AtomicBool", "Atomic<bool>"))]
-        for c in flag_reads:
-            fld = [e for r_, p_ in di.resolve(c.args[0]) for e in p_ if isinstance(e, str) and e.startswith(".") and e not in (".deref", ".inner", ".handle")]
-            fld = fld[-1] if fld else None
-            if fld is None:
-                continue
-            clears = [w for w in di.calls() if w.name in ("set", "store", "replace", "swap", "take") and w.args and not di.is_cleanup(w.bb) and T.path_has(di, w.args[0], fld) and (w.name == "take" or (len(w.args) > 1 and T.const_value(di, w.args[1], 8) == 0))]
-            late = [w for w in clears if any(w.bb in di.reachable([d_.to]) for d_ in disp if d_.to is not None)]
-            sets_ok = False
-            if ii is not None:
-                st_ = [w for w in ii.calls() if w.name in ("set", "store", "replace", "swap") and len(w.args) > 1 and not ii.is_cleanup(w.bb) and T.path_has(ii, w.args[0], fld) and T.const_value(ii, w.args[1], 8) == 1]
-                sets_ok = bool(st_) and T.t2_all_exits(ii, [0], [w.bb for w in st_]) is None
-            if clears and not late and sets_ok:
-                tr_, fa_ = T.bool_split(di, c.bb)
-                excused += fa_
-        bad = T.t2_all_exits(di, [0], [takes[0].bb], removed_edges=excused)
-        ck.verdict(bad is None, "2", "T2-all-exits", di, "every-dispatch-looks-at-the-list", "the only way around taking the idle list is the list being empty", "dispatch_idles can return without looking at the idle list although it is not (known to be) empty: the early return is decided by something else than the list itself (a 'pending' flag that a later store can wipe after an idle inserted by an idle has set it): queued idles are skipped by this and possibly every later dispatch", site=di.where(), path=path_descr(di, bad) if bad else None)
-        back = [cs for cs in di.calls() if cs.args and not di.is_cleanup(cs.bb) and cs.bb != takes[0].bb and cs.name in ("replace", "swap", "clear", "truncate", "append", "extend", "push") and T.path_has(di, cs.args[0], ".idles") and cs.bb in di.reachable([takes[0].to])] + [i for i, j, st in di.statements() if st["s"] == "assign" and st["pl"]["p"] and T.path_has(di, st["pl"], ".idles") and i in di.reachable([takes[0].to]) and not di.is_cleanup(i)]
-        ck.verdict(not back, "2", "T7-who-may-write", di, "list-not-overwritten-after-take", "after the list was taken dispatch_idles never writes it again (idles queued by the running idles survive)", "dispatch_idles writes the idle list again after having taken it: idles inserted by the idles that just ran are overwritten and never run", site=di.where(takes[0].bb))
-        gf = ck.guardflow(di)
-        live = [f.short_ty(p) for l, k, p in gf.live_payloads(d.bb)]
-        ck.verdict(all(x.startswith("dyn IdleDispatcher") for x in live), "2", "T1-no-guard-across-user-code", di, "no-list-guard-at-callback", "only the running idle's own cell is borrowed at the callback: %s" % live, "the idle list is still borrowed while an idle runs: %s" % live, site=di.where(d.bb))
+    if not idle_runners:
+        ck.body("2", "EventLoop::dispatch_idles")  # anchor missing
+    for di in idle_runners:
+        takes = [cs for cs in T.calls(di, name=TAKE) if T.path_has(di, cs.args[0], ".idles")]
+        disp = T.calls(di, name="dispatch", trait="IdleDispatcher", self_kind=("dyn",))
+        if not takes or not disp:
+            ck.violation("2", "T3-must-precede", di, "take-list-before-loop", "dispatch_idles does not take the idle list out of its cell before running the callbacks (idles inserted by an idle would run in the same dispatch, and the list stays borrowed across user code)", site=di.where())
+        else:
+            d = disp[0]
+            loops = di.loops()
+            lp = [(h, blk) for h, blk in loops.items() if d.bb in blk]
+            if len(lp) > 1:
+                # the idle code embedded in a function with a loop of its own (`run`, `block_on`): the idle loop is the
+                # innermost one around the callback
+                lp = [min(lp, key=lambda x: len(x[1]))]
+            ck.verdict(bool(lp) and all(di.dominates(takes[0].bb, h) and takes[0].bb not in blk for h, blk in lp), "2", "T3-must-precede", di, "take-list-before-loop", "the whole list is taken before the loop starts", "the idle list is not taken before the loop", site=di.where(takes[0].bb))
+            # `mem::swap(&mut *list, &mut buffer)`: the batch is then the buffer (required below to be drained completely)
+            swap_buf = None
+            if takes[0].name == "swap" and len(takes[0].args) == 2:
+                others = [a for a in takes[0].args if not T.path_has(di, a, ".idles")]
+                swap_buf = pointee_origin(di, others[0]) if len(others) == 1 else None
+            ck.verdict(takes[0].name in ("take", "replace", "split_off", "drain") or swap_buf is not None, "2", "T6-provenance", di, "take-idiom:%s" % takes[0].name, "recognised take idiom", "unrecognised", site=di.where(takes[0].bb), nontrivial=False)
+            if lp:
+                h, blk = lp[0]
+                hc = di.call_at(h)
+                it_ok = hc is not None and hc.name == "next" and T.same_sequence_as_call(di, hc.args[0], [takes[0].bb])
+                if not it_ok and hc is not None and hc.name == "next":
+                    # `for idle in taken.drain(..)`: a full drain of the taken vector is the same iteration
+                    for r, p_ in di.resolve(hc.args[0]):
+                        if r[0] == "call":
+                            c2 = di.call_at(r[1])
+                            if c2.name == "drain" and T.resolves_to_call(di, c2.args[0], [takes[0].bb]) and "RangeFull" in di.facts.types[op_place(c2.args[1])["t"]]["s"]:
+                                it_ok = True
+                if not it_ok and hc is not None and hc.name == "next" and swap_buf is not None:
+                    for r, p_ in di.resolve(hc.args[0]):
+                        if r[0] == "call":
+                            c2 = di.call_at(r[1])
+                            if c2.name == "drain" and "RangeFull" in di.facts.types[op_place(c2.args[1])["t"]]["s"] and pointee_origin(di, c2.args[0]) == swap_buf and di.dominates(takes[0].bb, c2.bb):
+                                it_ok = True
+                ck.verdict(it_ok, "2", "T6-provenance", di, "iterates-taken-list-in-order", "the loop iterates the taken vector itself, front to back, by value", "the loop does not iterate the taken list in order (reversed / filtered / another collection): %s" % (di.roots_str(hc.args[0]) if hc else "?"), site=di.where(h))
+                ck.verdict(hc is not None and any(x in f.types[f.peel_refs(op_place(hc.args[0])["t"])]["s"] for x in ("IntoIter", "Drain")), "2", "T6-provenance", di, "by-value-iteration", "entries are consumed by the iteration (each runs at most once)", "the idle list is not iterated by value: entries are not consumed", site=di.where(h))
+                some, none = T.option_split(di, h)
+                ex = [(a, t) for a, t, lab in T.loop_exit_edges(di, blk) if lab != "unwind" and di.blocks[t]["term"]["t"] != "unreachable"]
+                ck.verdict(bool(none) and set(ex) <= set(none), "2", "T5-loop-exit", di, "exits-only-on-exhaustion", "the loop is left only when the list is exhausted", "the idle loop can be left early (the remaining idles are dropped without running)", site=di.where(h))
+                bad = T.t2_all_exits(di, [x for _, x in some], [d.bb], exits={h})
+                ck.verdict(bad is None, "2", "T2-all-exits", di, "each-entry=>dispatch", "every entry is dispatched", "an entry can be skipped", site=di.where(d.bb))
+            # every dispatch looks at the list: the only way around the take is "the list is empty" (tested on the list itself).
+            # A separate "idles pending" flag is accepted only if it cannot be wiped after an idle inserted by an idle set
+            # it: every clearing store lies before the callbacks run, and insert_idle sets it on every path.
+            excused = []
+            for c in T.calls(di, name="is_empty"):
+                if not di.is_cleanup(c.bb) and c.args and T.path_has(di, c.args[0], ".idles"):
+                    tr_, fa_ = T.bool_split(di, c.bb)
+                    excused += tr_
+            flag_reads = [c for c in di.calls() if c.name in ("get", "load") and c.args and not di.is_cleanup(c.bb) and any(x in f.types[f.peel_refs(op_place(c.args[0])["t"])]["s"] for x in ("Cell<bool>", "AtomicBool", "Atomic<bool>"))]
+            for c in flag_reads:
+                fld = [e for r_, p_ in di.resolve(c.args[0]) for e in p_ if isinstance(e, str) and e.startswith(".") and e not in (".deref", ".inner", ".handle")]
+                fld = fld[-1] if fld else None
+                if fld is None:
+                    continue
+                clears = [w for w in di.calls() if w.name in ("set", "store", "replace", "swap", "take") and w.args and not di.is_cleanup(w.bb) and T.path_has(di, w.args[0], fld) and (w.name == "take" or (len(w.args) > 1 and T.const_value(di, w.args[1], 8) == 0))]
+                late = [w for w in clears if any(w.bb in di.reachable([d_.to]) for d_ in disp if d_.to is not None)]
+                sets_ok = False
+                if ii is not None:
+                    st_ = [w for w in ii.calls() if w.name in ("set", "store", "replace", "swap") and len(w.args) > 1 and not ii.is_cleanup(w.bb) and T.path_has(ii, w.args[0], fld) and T.const_value(ii, w.args[1], 8) == 1]
+                    sets_ok = bool(st_) and T.t2_all_exits(ii, [0], [w.bb for w in st_]) is None
+                if clears and not late and sets_ok:
+                    tr_, fa_ = T.bool_split(di, c.bb)
+                    excused += fa_
+            starts_ = [0]
+            exits_ = None
+            de_ = [cs for cs in di.calls() if cs.callee_body() is not None and cs.callee_body().qual == "EventLoop::dispatch_events" and not di.is_cleanup(cs.bb)]
+            if de_ and di.qual != "EventLoop::dispatch_idles":
+                # embedded: "every dispatch" = every successful return of dispatch_events, up to the next one or a return
+                ok_e_, err_e_, _d = T.result_split(di, de_[0].bb)
+                if ok_e_:
+                    starts_ = [x for _, x in ok_e_]
+                    exits_ = set(di.return_blocks()) | {de_[0].bb}
+            bad = T.t2_all_exits(di, starts_, [takes[0].bb], removed_edges=excused, exits=exits_)
+            ck.verdict(bad is None, "2", "T2-all-exits", di, "every-dispatch-looks-at-the-list", "the only way around taking the idle list is the list being empty", "dispatch_idles can return without looking at the idle list although it is not (known to be) empty: the early return is decided by something else than the list itself (a 'pending' flag that a later store can wipe after an idle inserted by an idle has set it): queued idles are skipped by this and possibly every later dispatch", site=di.where(), path=path_descr(di, bad) if bad else None)
+            back = [cs for cs in di.calls() if cs.args and not di.is_cleanup(cs.bb) and cs.bb != takes[0].bb and cs.name in ("replace", "swap", "clear", "truncate", "append", "extend", "push") and T.path_has(di, cs.args[0], ".idles") and cs.bb in di.reachable([takes[0].to])] + [i for i, j, st in di.statements() if st["s"] == "assign" and st["pl"]["p"] and T.path_has(di, st["pl"], ".idles") and i in di.reachable([takes[0].to]) and not di.is_cleanup(i)]
+            ck.verdict(not back, "2", "T7-who-may-write", di, "list-not-overwritten-after-take", "after the list was taken dispatch_idles never writes it again (idles queued by the running idles survive)", "dispatch_idles writes the idle list again after having taken it: idles inserted by the idles that just ran are overwritten and never run", site=di.where(takes[0].bb))
+            gf = ck.guardflow(di)
+            live = [f.short_ty(p) for l, k, p in gf.live_payloads(d.bb)]
+            ck.verdict(all(x.startswith("dyn IdleDispatcher") for x in live), "2", "T1-no-guard-across-user-code", di, "no-list-guard-at-callback", "only the running idle's own cell is borrowed at the callback: %s" % live, "the idle list is still borrowed while an idle runs: %s" % live, site=di.where(d.bb))
 
     # ---- clause 3: at most once ---------------------------------------------------------------------------
     wr = [b for b in f.closures_of(ii)]
@@ -165,6 +186,9 @@ def run(ck):
             continue
         de = [cs for cs in b.calls() if cs.callee_body() is not None and cs.callee_body().qual == "EventLoop::dispatch_events" and not b.is_cleanup(cs.bb)]
         dd = [cs for cs in b.calls() if cs.callee_body() is not None and cs.callee_body().qual == "EventLoop::dispatch_idles" and not b.is_cleanup(cs.bb)]
+        if not dd and b.qual in idle_quals:
+            # the idle code is part of this function (inlined): the site that takes the list stands for the call
+            dd = [cs for cs in T.calls(b, name=TAKE) if cs.args and T.path_has(b, cs.args[0], ".idles") and not b.is_cleanup(cs.bb)]
         if (not de or not dd) and q != "EventLoop::dispatch":
             # delegation to EventLoop::dispatch (which is checked above) on every iteration is the same sequence
             dsp = [cs for cs in b.calls() if cs.callee_body() is not None and cs.callee_body().qual == "EventLoop::dispatch" and not b.is_cleanup(cs.bb)]
